@@ -969,7 +969,7 @@ def to_poly(e: expr.Expr, conds: Conditions) -> Polynomial:
         if l.is_evaluable() and h.is_evaluable() :
             ll, hh = expr.eval_expr(l), expr.eval_expr(h)
             if ll > hh:
-                return singleton(-expr.Integral(e.var, h, l, body), conds)
+                return -singleton(expr.Integral(e.var, h, l, body), conds)
         return singleton(expr.Integral(e.var, normalize(e.lower, conds), normalize(e.upper, conds), body), conds)
 
     elif e.is_limit():
